@@ -3,7 +3,7 @@
    Context preparation (dict / file / list sources, for_namespaces, nested `uses ... as ns`,
    merging).  Files are a finite map path -> parsed document supplied with the case. *)
 From Coq Require Import List Ascii String Bool Arith ZArith.
-From TC Require Import PyStr Value Dict Placeholder.
+From TC Require Import PyStr Value Dict Placeholder Repr.
 Import ListNotations.
 
 Definition cfgdata := list (str * value).
@@ -51,7 +51,7 @@ Fixpoint split_as_go (acc_rev : str) (s : str) (best : option (str * str)) : opt
 Definition split_as (use : str) : option (str * str) := split_as_go [] use None.
 
 (* ---------- contexts ---------- *)
-Record context := { cx_ns : option str; cx_data : cfgdata; cx_for : list (str * cfgdata) }.
+Record context := { cx_name : str; cx_ns : option str; cx_data : cfgdata; cx_for : list (str * cfgdata) }.
 
 Definition for_of_value (v : value) : list (str * cfgdata) :=
   match v with
@@ -62,14 +62,14 @@ Definition value_of_for (f : list (str * cfgdata)) : value :=
   VDict (map (fun kd => (fst kd, VDict (snd kd))) f).
 
 (* Context._prepare *)
-Definition ctx_prepare (ns : option str) (data : cfgdata) : context :=
+Definition ctx_prepare (name : str) (ns : option str) (data : cfgdata) : context :=
   let for0 := match dget (lit "for_namespaces") data with Some v => for_of_value v | None => [] end in
   match ns with
-  | None => {| cx_ns := None; cx_data := data; cx_for := for0 |}
+  | None => {| cx_name := name; cx_ns := None; cx_data := data; cx_for := for0 |}
   | Some n =>
       let for1 := map (fun kd => (n ++ lit "::" ++ fst kd, snd kd)) for0 in
       let own := filter (fun kv => negb (is_reserved (fst kv)) || str_eqb (fst kv) (lit "uses")) data in
-      {| cx_ns := Some n; cx_data := []; cx_for := dset n own for1 |}
+      {| cx_name := name; cx_ns := Some n; cx_data := []; cx_for := dset n own for1 |}
   end.
 
 (* Context.merge_contexts *)
@@ -79,7 +79,7 @@ Definition merge_contexts (cs : list context) : context :=
                 fold_left (fun acc2 nd =>
                   dset (fst nd) (dupdate (match dget (fst nd) acc2 with Some d => d | None => [] end) (snd nd)) acc2)
                   (cx_for c) acc) cs [] in
-  ctx_prepare None (dset (lit "for_namespaces") (value_of_for fors) data).
+  ctx_prepare (join (lit ";") (map cx_name cs)) None (dset (lit "for_namespaces") (value_of_for fors) data).
 
 (* ---------- files ---------- *)
 Definition files := list (str * value).
@@ -105,6 +105,13 @@ Definition load (fs : files) (path : str) : res cfgdata :=
   | Some _ => inr EOther
   | None => inr EOther
   end.
+
+(* str(v) inside an f-string *)
+Definition py_str (v : value) : str := match v with VStr s => s | VRepr s _ => s | _ => py_repr v end.
+Definition dkey_leb0 (a b : str * value) : bool := str_leb (fst a) (fst b).
+(* name of a context given as a dict: dict_context(k:v,...) over the sorted items *)
+Definition dict_context_name (d : cfgdata) : str :=
+  lit "dict_context(" ++ join (lit ",") (map (fun kv => fst kv ++ lit ":" ++ py_str (snd kv)) (isort dkey_leb0 d)) ++ lit ")".
 
 (* Context.prepare_context; `gv` are the global vars (None = not given) *)
 Inductive ctxsrc := CxFile (p : str) | CxDict (d : cfgdata) | CxList (l : list ctxsrc).
@@ -132,15 +139,15 @@ Fixpoint prep_ctx (fuel : nat) (fs : files) (gv : option (list (str * str))) (sr
         match src with
         | CxFile p =>
             match split_hash p with
-            | inl (path, _) =>
+            | inl (path, part) =>
                 match file_name path, load fs path with
-                | inl _, inl d => inl (ctx_prepare ns d)
+                | inl n, inl d => inl (ctx_prepare (match part with Some ((_ :: _) as p0) => n ++ lit "#" ++ p0 | _ => n end) ns d)
                 | inr e, _ => inr e
                 | _, inr e => inr e
                 end
             | inr e => inr e
             end
-        | CxDict d => inl (ctx_prepare ns d)
+        | CxDict d => inl (ctx_prepare (dict_context_name d) ns d)
         | CxList l =>
             match sequence (map (fun s => prep_ctx f fs gv s ns) l) with
             | inl cs => inl (merge_contexts cs)
@@ -164,9 +171,10 @@ Fixpoint prep_ctx (fuel : nat) (fs : files) (gv : option (list (str * str))) (sr
                             | None => prep_ctx f fs gv (CxFile use) (nonempty_ns (cx_ns c))
                             end) (uses_of gv u) in
               let c' := match nonempty_ns ns with
-                        | Some n => {| cx_ns := cx_ns c; cx_data := cx_data c;
+                        | Some n => {| cx_name := cx_name c; cx_ns := cx_ns c; cx_data := cx_data c;
                                        cx_for := dset n (ddel (lit "uses") current) (cx_for c) |}
-                        | None => {| cx_ns := cx_ns c; cx_data := ddel (lit "uses") (cx_data c); cx_for := cx_for c |}
+                        | None => {| cx_name := cx_name c; cx_ns := cx_ns c; cx_data := ddel (lit "uses") (cx_data c);
+                                     cx_for := cx_for c |}
                         end in
               match sequence subs with
               | inl cs => inl (merge_contexts (c' :: cs))
